@@ -1,7 +1,7 @@
 """C08 — composable deallocation recognises exactly its own memory (DESIGN.md #C08)"""
 import common, subjects
 
-SPEC = dict(modules=["MemVerif.Props.C08"], gen_cfgs=("rwdi",),
+SPEC = dict(modules=["MemVerif.Props.C08", "MemVerif.Props.C08Coll"], gen_cfgs=("rwdi",),
             assumptions=["live allocations of a sibling allocator lie in the sibling's upstream blocks, which are disjoint from this allocator's "
                          "blocks (EnvOk; the instrumented upstream places blocks directly adjacent so the boundary cases occur)",
                          "memory_stack / iteration_allocator composable traits only test ownership (they release nothing): theorems "
